@@ -199,6 +199,7 @@ def serviceStep (st : ServiceSt) (toks : List String) : ServiceSt × String :=
       let cfg : Svc.Cfg := { ipMode := parseMode mode, maxNodesResponse := nat! maxn, enrUpdate := enrupd == "1",
                              kb := kbCfg (nat! maxin) 60000 }
       (setInst st { name := x, svc := Svc.init cfg r }, "ok")
+  | ["spermit", _] => (st, "ok")   -- the permit list concerns the packet filter only
   | ["sevpause", x] =>
     match getInst st x with
     | some i => (setInst st { i with evPaused := true }, "ok")
